@@ -10,6 +10,7 @@ for id in "$@"; do
     demo="$d/demo$n.diff"
     [ -f "$demo" ] || continue
     [ -f "$d/patch$n.rebased.diff" ] && p="$d/patch$n.rebased.diff"
+    [ -f "$d/demo$n.rebased.diff" ] && demo="$d/demo$n.rebased.diff"
     tools/confirm_seed.sh "R4_${id}_$n" "$p" "$demo" "demo_" >> $LOG 2>&1
   done
 done
